@@ -9,6 +9,10 @@ GROUPS = [
     ("k2_", "K2.signal-protocol", ["C04"], "sequential signal protocol: send/recv/terminate complete the waiter with the right outcome and payload"),
     ("k4_", "K4.layout", ["C09", "C12"], "sync and async handle types are layout-identical wrappers of the shared state"),
 ]
+# bounded stand-ins (thorough tier only): never counted as proved
+BOUNDED = [
+    ("k3_", "K3.cancel-unrewritten", ["C02", "C13", "C15"], "cancel_*_signal on the UNREWRITTEN text (cross-check of exec rewrite X1): same post-condition as the Verus contract", "wait list length <= 3, unwind 5"),
+]
 SPURIOUS = [
     # CBMC checks the destination of a zero-byte memset (core::mem::zeroed::<ZST>() in KanalPtr::read): tool artefact
     ("memset destination region writeable", "write_bytes::<"),
@@ -129,19 +133,32 @@ def playback(crate, harness):
 
 def run(prop, tier, here, repo, tmp, seed):
     groups = wanted(prop)
-    if not groups:
+    bounded_groups = [g for g in BOUNDED if prop in g[2]] if tier == "thorough" else []
+    if not groups and not bounded_groups:
         return None
     t0 = time.time()
     crate = prepare(repo, tmp)
     cmd = ["cargo", "kani", "-j", "16", "--output-format=terse"]
-    for g in groups:
+    for g in groups + bounded_groups:
         cmd += ["--harness", g[0]]
     r = sh(cmd, crate)
     res, summary_failed, total = parse_terse(r.stdout)
     if total is None:
         raise RuntimeError("cargo kani did not complete: " + r.stdout[-3000:])
-    obs, failed, artefacts = [], [], []
+    obs, failed, artefacts, bounded = [], [], [], []
     for h, info in sorted(res.items()):
+        bg = [b for b in BOUNDED if any(seg.startswith(b[0]) for seg in h.split("::"))]
+        if bg:
+            b = bg[0]
+            real = [(d, l) for (d, l) in info["failed_checks"] if not is_spurious(d, l)]
+            bounded.append({"harness": h, "obligation": b[1], "bound": b[4], "clause": b[3], "ok": not real, "cbmc_checks": info["checks"], "time_s": info["time"],
+                            "label": "bounded(%s) -- not counted as proved" % b[4]})
+            if real and prop in b[2]:
+                test, reproduced, log = playback(crate, h)
+                failed.append({"kind": "kani-bounded", "id": b[1], "props": b[2], "func": h, "text": b[3], "exit_text": real[0][0], "src": None,
+                               "message": real[0][0], "rendered": "failed checks: %s\n\nnative playback %s:\n%s" % (real, "REPRODUCED" if reproduced else "did not reproduce", log),
+                               "counterexample": test if reproduced else None, "ob_idx": None, "unit": "kani"})
+            continue
         g = group_of(h)
         if g is None or prop not in g[2]:
             continue
@@ -161,7 +178,7 @@ def run(prop, tier, here, repo, tmp, seed):
     missing = [h for h in summary_failed if h not in res]
     if missing:
         raise RuntimeError("could not parse Kani output for harnesses: %s" % missing)
-    if not obs:
+    if not obs and groups:
         raise RuntimeError("no Kani harness ran for %s (zero obligations)" % prop)
     wall = time.time() - t0
-    return obs, failed, [], ["(cd <scratch copy of /repo + src/verif_kani.rs> && %s)" % " ".join(cmd)], wall, artefacts
+    return obs, failed, bounded, ["(cd <scratch copy of /repo + src/verif_kani.rs> && %s)" % " ".join(cmd)], wall, artefacts
